@@ -3008,3 +3008,17 @@ V(id='c40-iv-constant-default-copy', prop='C40', file='mpmath/ctx_iv.py',
 V(id='c40-benign-iv-reduce-inline', prop='C40', file='mpmath/ctx_iv.py',
   old="    def __reduce__(self):\n        return _iv_reduce(self, 'mpf', self._mpi_)\n",
   new="    def __reduce__(self):\n        return (_iv_number, ('mpf', self._mpi_))\n", expect='silent')
+
+# ---- C24 T-R15 (fourth hunt; fix 77a2f5d) ----
+V(id='c24-rs-zeta-float-overflow-escapes', prop='C24', file='mpmath/functions/rszeta.py',
+  old="    except OverflowError:\n        # (the error estimates are made with floats, which cannot hold\n        # 9**sigma far from the critical line: the callers fall back)\n        raise NotImplementedError(\"Riemann-Siegel can not compute with such sigma\")\n",
+  new="", expect='fire:T-R15:rs_zeta')
+V(id='c24-rs-z-float-overflow-escapes', prop='C24', file='mpmath/functions/rszeta.py',
+  old="            return z_offline(ctx, w, derivative)\n    except OverflowError:\n        raise NotImplementedError(\"Riemann-Siegel can not compute with such sigma\")\n",
+  new="            return z_offline(ctx, w, derivative)\n", expect='fire:T-R15:rs_z')
+V(id='c24-rs-z-overflow-reraised-as-undocumented', prop='C24', file='mpmath/functions/rszeta.py',
+  old="            return z_offline(ctx, w, derivative)\n    except OverflowError:\n        raise NotImplementedError(\"Riemann-Siegel can not compute with such sigma\")\n",
+  new="            return z_offline(ctx, w, derivative)\n    except OverflowError:\n        raise ArithmeticError(\"sigma too large\")\n", expect='fire:T-R15:rs_z')
+V(id='c24-benign-rs-z-overflow-as-valueerror', prop='C24', file='mpmath/functions/rszeta.py',
+  old="            return z_offline(ctx, w, derivative)\n    except OverflowError:\n        raise NotImplementedError(\"Riemann-Siegel can not compute with such sigma\")\n",
+  new="            return z_offline(ctx, w, derivative)\n    except ArithmeticError:\n        raise ValueError(\"sigma too large\")\n", expect='silent')
